@@ -69,7 +69,8 @@ Semantics given to it (the trusted part of this translator):
     fuel is enough; with too little the result is VStuck);
   * `o.context(XSnafu)` on an Option is Ok(v) / Err(Error::X), on a Result Ok(v) / Err(Error::X(e));
     a method of a parameter named in the group's "handles" (`stream.write(..)`, `entry.insert(..)`)
-    is a stateful external that receives the handle, the arguments and self; so is a call named in
+    is a stateful external that receives the handle, the arguments and self (also through a field
+    path of the handle: `ch0_slot.common.rx.try_recv()` is "ch0_slot.common.rx.try_recv"); so is a call named in
     the group's "stateful_calls" (a closure parameter with effects, a parser that counts), and a
     chain of calls on a stateful field (self.buf.prepare_reserve(n).read_from(s)) is one stateful
     external named by the chain; a constant of another crate is an external value; for a free
@@ -899,6 +900,18 @@ class Gen:
             return None
         return ("%s.%s" % (inner[0], m), inner[1] + list(args))
 
+    def handle_path(self, recv):
+        """<h>.<a>.<b> with h one of the group's handles (a parameter standing for state outside self, such
+        as a `&Channel0Slot` whose receiver is drained): (h, "a.b") or None"""
+        path = []
+        cur = recv
+        while cur[0] == "field":
+            path.append(cur[2])
+            cur = cur[1]
+        if path and cur[0] == "var" and cur[1] in self.handles:
+            return (cur[1], ".".join(reversed(path)))
+        return None
+
     def stateful_recv(self, recv):
         """self.<..>.<f> with f one of the group's stateful fields"""
         if recv[0] != "field" or recv[2] not in self.chans:
@@ -931,6 +944,8 @@ class Gen:
             if self.stateful_chain(x) is not None and not self.stateful_recv(recv):
                 return True
             if recv[0] == "var" and recv[1] in self.handles:
+                return True
+            if self.handle_path(recv) is not None:
                 return True
             if recv[0] == "var" and recv[1] in self.iterators and m == "next" and not args:
                 return True
@@ -1037,6 +1052,14 @@ class Gen:
                 env2 = dict(env)
                 env2[x0] = n
                 return "let %s := v_next %s in\nlet %s := v_rest %s in\n%s" % (v, env[x0], n, env[x0], k(env2, v))
+            if self.handle_path(recv) is not None:
+                # an operation on something reached through a handle: it goes to self as well
+                h, path = self.handle_path(recv)
+                n, v = self.fresh("self"), self.fresh("v")
+                env2 = dict(env)
+                env2["self"] = n
+                return "let '(%s, %s) := ext_st %s [%s] %s in\n%s" % (
+                    n, v, cstr("%s.%s.%s" % (h, path, m)), "; ".join([env[h]] + [self.e(a, env) for a in args]), env["self"], k(env2, v))
             if recv[0] == "var" and recv[1] in self.handles:
                 # a handle obtained from self (a HashMap entry): the operation goes to self
                 n, v = self.fresh("self"), self.fresh("v")
